@@ -158,6 +158,16 @@ fn do_clean(j: usize, aid: u8, top_level: bool) {
         if faults == 0 && runs_after != 1 {
             v!("C10", "P-clean", "cleaning action #{} has run {} times after a top-level clean() returned (before the call: {})", aid, runs_after, runs_before);
         }
+    } else {
+        // clean() called from inside another callback: the action runs at this first call as well, unless its
+        // Cleaner is already being destroyed (then the destruction runs it, which the owner's glue end checks)
+        let owner = m.actions[aid as usize].owner as usize;
+        let owner_going = m.objs[owner].dropped || m.objs[owner].glue_done || m.objs[owner].freed || m.objs[owner].moved_out;
+        let faults = m.faults;
+        drop(m);
+        if faults == 0 && !owner_going && runs_after != 1 && !std::thread::panicking() {
+            v!("C10", "P-clean", "cleaning action #{} has run {} times after a clean() called from inside another callback returned (its Cleaner is alive)", aid, runs_after);
+        }
     }
 }
 
@@ -425,19 +435,47 @@ fn apply(op: Op) {
         },
         Code::FillStrong => op_fill_strong(a, b),
         Code::FillBag => {
+            // c = 0: references to the object itself; c = 1 + v: references to the object held by variable v;
+            // c = 1 + MAXV + v: likewise, and the handle in v is moved into the bag as well (every Cc of that
+            // object is then owned by a traced field)
             let id = var_id(a);
+            let (tv, mv) = if op.c == 0 { (a as usize, false) } else if (op.c as usize) <= MAXV { (op.c as usize - 1, false) } else { (op.c as usize - 1 - MAXV, true) };
+            let tid = var_id(tv as u8);
             let target = STRONG_MAX - b as u32;
-            let h = c.vars[a as usize].borrow();
-            let cc = h.as_ref().unwrap();
             let mut n = 0u32;
-            while cc.strong_count() < target {
-                let cl = cc.clone();
-                cc.bag.borrow_mut().push(cl);
+            {
+                let h = c.vars[a as usize].borrow();
+                let cc = h.as_ref().unwrap();
+                if op.c == 0 {
+                    while cc.strong_count() < target {
+                        let cl = cc.clone();
+                        cc.bag.borrow_mut().push(cl);
+                        n += 1;
+                    }
+                } else {
+                    let ht = c.vars[tv].borrow();
+                    let tc = ht.as_ref().unwrap();
+                    while tc.strong_count() < target {
+                        let cl = tc.clone();
+                        cc.bag.borrow_mut().push(cl);
+                        n += 1;
+                    }
+                }
+            }
+            if mv {
+                let moved = c.vars[tv].borrow_mut().take().unwrap();
+                c.vars[a as usize].borrow().as_ref().unwrap().bag.borrow_mut().push(moved);
                 n += 1;
             }
             let mut m = c.model.borrow_mut();
+            if mv {
+                m.vars[tv] = None;
+            }
             m.objs[id as usize].bag_self += n;
-            m.objs[id as usize].buffered = false;
+            if tid != id {
+                m.objs[id as usize].bag_target = tid;
+            }
+            m.objs[tid as usize].buffered = false;
         },
         #[cfg(feature = "weak")]
         Code::FillWeak => op_fill_weak(a, b),
@@ -1425,7 +1463,9 @@ fn post_op(op: Op, faulted: bool) {
                     let sc = w.strong_count();
                     let okc = if o.limbo { sc == 0 || sc >= expect } else if o.leaky { sc >= expect && (alive || sc == 0) } else { sc == expect };
                     if !okc {
-                        v!("C09", "P-wcnt", "Weak::strong_count() for object #{} is {} but {} Cc pointers to it exist (alive: {})", t, sc, expect, alive);
+                        // near the limit a wrong answer is a counter/sentinel collision: C16 owns it
+                        let prop = if expect + 4 >= STRONG_MAX { "C16" } else { "C09" };
+                        v!(prop, "P-wcnt", "Weak::strong_count() for object #{} is {} but {} Cc pointers to it exist (alive: {})", t, sc, expect, alive);
                         return;
                     }
                 },
@@ -1559,6 +1599,8 @@ pub struct VarInfo {
     pub drop_script: u8,
     pub strong: u32,
     pub weak: u32,
+    /// 0 = empty traced bag, 1 = references to itself, 2 + id = references to object id
+    pub bag: u8,
 }
 
 #[derive(Clone, Copy, Debug, Default)]
@@ -1595,6 +1637,7 @@ pub fn summary() -> Summary {
                 drop_script: o.drop_script,
                 strong: m.count(id as usize),
                 weak: m.weak_count(id as usize),
+                bag: if o.bag_self == 0 { 0 } else if o.bag_target == 0xFF { 1 } else { 2 + o.bag_target },
             };
         }
     }
@@ -1759,6 +1802,7 @@ pub fn canonical_key(out: &mut Vec<u8>) {
         }
         out.push(if ob.glue_done { 0xFE } else { wr(ob.wcell) });
         out.extend_from_slice(&(ob.bag_self as u16).to_le_bytes());
+        out.push(if ob.bag_self == 0 || ob.bag_target == 0xFF { 0xFF } else { nm(Some(ob.bag_target)) });
         out.extend_from_slice(&(m.stash_strong[i] as u16).to_le_bytes());
         out.extend_from_slice(&(m.stash_weak[i] as u16).to_le_bytes());
         if ob.box_alive() {
@@ -1940,9 +1984,21 @@ pub fn enabled(s: &Summary, cfg: &LensCfg, out: &mut Vec<Op>) {
                 out.push(Op::new(Code::FillStrong, a8, k, 0));
             }
         }
-        if on(Code::FillBag) && !s.stash && va.strong < STRONG_MAX - cfg.sat_k as u32 - 2 {
+        if on(Code::FillBag) && !s.stash && va.strong < STRONG_MAX - cfg.sat_k as u32 - 2 && va.bag <= 1 {
             for k in 0..=cfg.sat_k {
                 out.push(Op::new(Code::FillBag, a8, k, 0));
+            }
+        }
+        // ... or with references to another object (every Cc of that object but the program's handles is then traced)
+        if on(Code::FillBag) && !s.stash {
+            for t in 0..nv {
+                let vt = s.vars[t];
+                if t != a && vt.some && vt.id != va.id && vt.strong < STRONG_MAX - cfg.sat_k as u32 - 2 && (va.bag == 0 || va.bag == 2 + vt.id) {
+                    for k in 0..=cfg.sat_k {
+                        out.push(Op::new(Code::FillBag, a8, k, 1 + t as u8));
+                        out.push(Op::new(Code::FillBag, a8, k, 1 + MAXV as u8 + t as u8));
+                    }
+                }
             }
         }
         if on(Code::FillWeak) && !s.stash {
